@@ -422,7 +422,7 @@ pub fn gen_structured(rng: &mut Rng, o: &ProgOpts) -> Built {
                 for _ in 0..2 {
                     input_bytes.push(match rng.below(6) {
                         0 => 0x80 + rng.below(0x80) as u8,
-                        1 => b'\n',
+                        1 => *rng.pick(&[b'\n', b'\n', b'\r', b'\t', 0x00, 0x07, 0x08, 0x0C, 0x7F]),
                         _ => 0x20 + rng.below(0x5F) as u8,
                     });
                 }
